@@ -871,13 +871,18 @@ fn reccut_image(s: &mut Sink, rng: &mut Rng, img: &[u8], amb: bool, later: u64, 
         s.emit(if multi { "gens-multi-generation" } else { "gens" }, format!("gens {} {}", later, line), res);
     }
     let r0: std::collections::BTreeMap<Vec<u8>, (u64, u64, String)> = r0at.into_iter().map(|(k, v)| (k, (v.0, v.1, v.2))).collect();
+    // an instant after every expiry found on the device
+    let later2 = image_generations(img).iter().map(|g| g.2).max().unwrap_or(0).saturating_add(1_000_000_000).max(later);
     let trace = tracer.log.lock().unwrap().clone();
     let nwrites = trace.iter().filter(|e| e.0).count();
     *s.hist.entry(if sparse { format!("reccut-big-image-{}-journal-transactions", trace.iter().filter(|e| e.0 && e.1 < 16).count() / 2) } else { format!("reccut-image-{}-repair-writes", nwrites.min(9)) }).or_insert(0) += 1;
     // sparse (long traces): every journal / metadata write is a cut, of the marker writes a sample
     let cuts: Vec<usize> = trace.iter().enumerate().filter(|(_, e)| e.0 && (!sparse || e.1 < 16 || rng.chance(1, 100))).map(|(i, _)| i + 1).collect();
+    let mut cuts = cuts;
+    cuts.insert(0, 0); // nothing of the first recovery reached the device: only the later restart is of interest
     for &cut in &cuts {
         for variant in 0..2 {
+            if cut == 0 && variant == 1 { continue; }
             // 0: everything issued up to the cut is on the device; 1: fsynced writes + a random subset of the rest
             let mut img2 = img.to_vec();
             let mut pending: Vec<&(bool, u64, Vec<u8>)> = vec![];
@@ -916,6 +921,33 @@ fn reccut_image(s: &mut Sink, rng: &mut Rng, img: &[u8], amb: bool, later: u64, 
                 if sparse { let _ = std::fs::remove_file(&cp); let _ = std::fs::remove_file(&mp); return; }
             }
             let _ = std::fs::remove_file(&cp);
+            // … and the same cut restarted *later*, when every expiry on the device has passed: apart from the
+            // keys whose (newest) generation has expired in between, the contents are those of the first recovery
+            if variant == 0 && same && later2 > later {
+                std::fs::write(&cp, &img2).unwrap();
+                *s.hist.entry("reccut-restart-after-expiries".into()).or_insert(0) += 1;
+                let r2 = recovered_contents(&cp, amb, true, later2, None);
+                let want: std::collections::BTreeMap<Vec<u8>, (u64, u64, String)> = r0.iter().filter(|(_, v)| v.1 == 0 || later2 <= v.1).map(|(k, v)| (k.clone(), v.clone())).collect();
+                if !matches!(&r2, Ok(r) if *r == want) {
+                    let keep0 = format!("{}/{}.image", s.dir, tag);
+                    let keep1 = format!("{}/{}_c{}_late.image", s.dir, tag, cut);
+                    std::fs::write(&keep0, img).unwrap();
+                    std::fs::write(&keep1, &img2).unwrap();
+                    let diff = match &r2 {
+                        Err(e) => format!("the restarted recovery fails: {}", e),
+                        Ok(r) => {
+                            let k = r.keys().chain(want.keys()).find(|k| r.get(*k) != want.get(*k)).unwrap();
+                            format!("key {}: the first recovery reported {:?}, the restarted one (all expiries passed) {:?}, expected {:?}", hex(k), r0.get(k), r.get(k), want.get(k))
+                        }
+                    };
+                    oracle.push(format!("reccut-late: recovery (ttl on, now={}, amb={}) of {} interrupted after {} of its {} device events and restarted on {} at now={} (every expiry on the device has passed) does not expose the first recovery's contents minus the expired keys — {}",
+                        later, amb as u8, keep0, cut, trace.len(), keep1, later2, diff));
+                    let _ = std::fs::remove_file(&cp);
+                    let _ = std::fs::remove_file(&mp);
+                    return;
+                }
+                let _ = std::fs::remove_file(&cp);
+            }
         }
     }
     let _ = std::fs::remove_file(&mp);
